@@ -17,6 +17,8 @@ pub struct OpRec {
     pub msgs: Vec<String>,
     pub call: u64,
     pub ret: u64,
+    /// logical clock values the command drew while it ran (the first one is when its change was created)
+    pub ticks: Vec<u64>,
 }
 
 pub struct CWorld {
@@ -96,6 +98,7 @@ pub fn body(dbs: Arc<Databases>, mut sess: Session, tid: usize, program: Vec<Str
         let mut out = vec![];
         for (idx, line) in program.iter().enumerate() {
             let call = sched.seq.fetch_add(1, Ordering::SeqCst);
+            let _ = take_ticks();
             let client = &mut sess.client;
             let r = std::panic::catch_unwind(std::panic::AssertUnwindSafe(|| nundb::process_request::process_request(line, &dbs, client)));
             let ret = sched.seq.fetch_add(1, Ordering::SeqCst);
@@ -104,7 +107,7 @@ pub fn body(dbs: Arc<Databases>, mut sess: Session, tid: usize, program: Vec<Str
                 Err(e) => format!("PANIC({})", panic_msg(&e)),
             };
             let msgs = sess.drain();
-            out.push(OpRec { tid, idx, line: line.clone(), resp, msgs, call, ret });
+            out.push(OpRec { tid, idx, line: line.clone(), resp, msgs, call, ret, ticks: take_ticks() });
         }
         (out, sess)
     })
